@@ -7,14 +7,6 @@ Import ListNotations.
 From Y Require Import Prelude Re Resolve Decide.
 Open Scope N_scope.
 
-Definition tag_bool  : ustring := u "tag:yaml.org,2002:bool"%string.
-Definition tag_float : ustring := u "tag:yaml.org,2002:float"%string.
-Definition tag_int   : ustring := u "tag:yaml.org,2002:int"%string.
-Definition tag_null  : ustring := u "tag:yaml.org,2002:null"%string.
-Definition tag_timestamp : ustring := u "tag:yaml.org,2002:timestamp"%string.
-Definition tag_merge : ustring := u "tag:yaml.org,2002:merge"%string.
-Definition tag_value : ustring := u "tag:yaml.org,2002:value"%string.
-Definition tag_yaml  : ustring := u "tag:yaml.org,2002:yaml"%string.
 
 Definition word (s : string) : re := lit (u s).
 Definition ci (s : string) : re :=          (* case-insensitive ASCII word *)
